@@ -15,6 +15,7 @@ mod misc;
 mod ckstore;
 mod ckequiv;
 mod codec;
+mod aggregate;
 
 fn main() {
     let args: Vec<String> = std::env::args().collect();
@@ -45,6 +46,7 @@ fn main() {
         "ckstore-replay" => ckstore::replay(rest),
         "ckequiv-replay" => ckequiv::replay(rest),
         "codec-replay" => codec::replay(rest),
+        "agg-replay" => aggregate::replay(rest),
         "for-expand" => misc::for_expand(rest),
         "event-file" => misc::event_file(rest),
         other => {
